@@ -307,6 +307,7 @@ pub enum CaseOutcome<T>
 }
 
 thread_local! {
+	static IN_CASE: std::cell::Cell<bool> = std::cell::Cell::new(false);
 	static LAST_PANIC: std::cell::RefCell<(String, String)> = std::cell::RefCell::new((String::new(), String::new()));
 }
 
@@ -331,6 +332,10 @@ pub fn install_panic_hook()
 		{
 			"non-string panic payload".to_string()
 		};
+		if !IN_CASE.with(|c| c.get())
+		{
+			eprintln!("worker panic outside a case at {site}: {message}");
+		}
 		LAST_PANIC.with(|x| *x.borrow_mut() = (site, message));
 	}));
 }
@@ -352,7 +357,9 @@ impl WorkerCtx
 			return CaseOutcome::Crashed { how: String::new() };
 		}
 		self.slot.record(self.index, desc);
+		IN_CASE.with(|c| c.set(true));
 		let r = std::panic::catch_unwind(std::panic::AssertUnwindSafe(f));
+		IN_CASE.with(|c| c.set(false));
 		self.slot.done();
 		match r
 		{
@@ -668,7 +675,7 @@ fn describe_death(status: Option<std::process::ExitStatus>, stderr: &str) -> Str
 			{
 				continue;
 			}
-			if l.contains("LLVM ERROR") || l.contains("Assertion") || l.contains("verif") || l.contains("Broken") || l.contains("does not") || l.contains("invalid") || l.contains("mismatch")
+			if l.contains("LLVM ERROR") || l.contains("Assertion") || l.contains("verif") || l.contains("Broken") || l.contains("does not") || l.contains("invalid") || l.contains("Invalid") || l.contains("mismatch") || l.contains("must be") || l.contains("not of") || l.contains("expected")
 			{
 				hint = normalise_message(l);
 				break;
